@@ -120,7 +120,7 @@ class Oracle:
         new = [k for k in cur if k not in st.items]
         # the property promises valid -> valid: while the order is already broken by a known finding (and by nothing
         # else), a further inversion against one of the misplaced rules is a consequence of that finding
-        order_taint = sorted(set(v for k, v in st.explained.items() if k[0] == 'order'))
+        order_taint = sorted(set(v for k, v in st.explained.items() if k[0] in ('order', 'charset')))
         order_clean = all(k in st.explained for k in st.items if k[0] in ('order', 'charset'))
         for k in new:
             f = self.explain(k, st, op, out, pre)
@@ -137,10 +137,12 @@ class Oracle:
     def explain(self, k, st, op, out, pre):
         t = op[0]
         clause = k[0]
-        if clause == 'order':
+        if clause in ('order', 'charset'):
             if t == 'insord' and op[1].kind in ('namespace', 'variables') and in_fallback_region(pre['kinds'], op[1].kind) \
                     and op[2] != len(pre['kinds']):
                 return F_INORDER
+            if clause == 'charset':
+                return None
             if t in ('add', 'insord') and op[1].kind == 'variables' and in_vars_region(pre['kinds']):
                 # the new @variables rule is the first member of the inverted pair
                 a = [r for r in st.sheet.cssRules if id(r) == k[1]]
